@@ -131,6 +131,7 @@ def _orth(n, seed, tag):
 
 
 SPECTRA = {
+    'tail_noise': lambda k: [1.0 / (1 + j) if j < max(1, k // 2) else 0.0 for j in range(k)],
     'distinct': lambda k: [2.0 ** (-j) * (1 + 0.1 * j) for j in range(k)],
     'repeated': lambda k: [1.0 if j < (k + 1) // 2 else 0.25 for j in range(k)],
     'zerotail': lambda k: [1.0 / (1 + j) if j < max(1, k - 1) else 0.0 for j in range(k)],
@@ -151,6 +152,10 @@ def check_matrix(c):
         sign = np.array([1 if j % 2 == 0 else -1 for j in range(k)])
         A = (Q * (s * sign)) @ Q.T
         A = (A + A.T) / 2
+    elif c.get('nearsym'):
+        Q = _orth(m, seed, 1)
+        A = (Q * s) @ Q.T
+        A = (A + A.T) / 2 + c['nearsym'] * space.core('gen', 1, m, n, 7, seed)[0]        # symmetric up to a small perturbation, NOT symmetric
     else:
         A = (_orth(m, seed, 1)[:, :k] * s) @ _orth(n, seed, 2)[:k, :]
     A0 = A.copy()
@@ -291,12 +296,19 @@ def check_forms(c):
     res = Res()
     seed = c.get('seed', 0)
     A = np.round(_arr(dict(c, kind='tt', mag=1.0), seed) * 8)          # integer-valued float array
+    if c.get('nonneg'):
+        A = np.abs(A)
     nrm = float(np.linalg.norm(A))
     for e, r in ((1e-10, 1e12), (0.3 * nrm, 1e12), (1e-10, 2)):
         res.ev()
         case = dict(c, e=e, r=r)
         base = teneva.svd(A, e, r)
         forms = {'int64': A.astype(np.int64), 'int32': A.astype(np.int32), 'fortran': np.asfortranarray(A), 'float32': A.astype(np.float32)}
+        if np.abs(A).max() < 120:
+            forms['int8'] = A.astype(np.int8)
+            forms['int16'] = A.astype(np.int16)
+        if A.min() >= 0 and A.max() < 250:
+            forms['uint8'] = A.astype(np.uint8)
         big = np.zeros(tuple(2 * s for s in A.shape))
         view = big[tuple(slice(0, 2 * s, 2) for s in A.shape)]
         view[...] = A
@@ -352,7 +364,7 @@ def _arrays(tier, seed):
                     out.append(dict(kind='tt', shape=sh, ranks=rk, mag=mag, seed=seed))
                 out.append(dict(kind='int', shape=sh, ranks=rk, mag=1.0, seed=seed))
     # strongly rectangular unfoldings (size-dependent code paths: a first unfolding >= 64x wider than tall)
-    wide = [([2, 150], [1, 2, 1]), ([3, 5, 6, 7], [1, 2, 3, 2, 1]), ([4, 4, 4, 4, 4], [1, 2, 3, 3, 2, 1]), ([2] * 8, [1, 2, 2, 3, 3, 2, 2, 2, 1]),
+    wide = [([400, 6], [1, 3, 1]), ([300, 5], [1, 2, 1]), ([12, 12], [1, 3, 1]), ([2, 150], [1, 2, 1]), ([3, 5, 6, 7], [1, 2, 3, 2, 1]), ([4, 4, 4, 4, 4], [1, 2, 3, 3, 2, 1]), ([2] * 8, [1, 2, 2, 3, 3, 2, 2, 2, 1]),
             ([1, 100], [1, 1, 1]), ([150, 2], [1, 2, 1])]
     for sh, rk in wide:
         for mag in mags:
@@ -371,6 +383,13 @@ def _matrices(tier, seed):
                     out.append(dict(m=m, n=n, spec=spec, herm=False, mag=mag, seed=seed))
                     if m == n:
                         out.append(dict(m=m, n=n, spec=spec, herm=True, mag=mag, seed=seed))
+    for (m, n) in ((400, 6), (300, 5), (6, 400), (200, 2), (70, 2)):           # rows > 32 x columns (and the transpose)
+        for spec in ('tail_noise', 'zerotail', 'graded', 'distinct'):
+            out.append(dict(m=m, n=n, spec=spec, herm=False, mag=1.0, seed=seed))
+    for m in (3, 5, 12):
+        for eps in (1e-6, 1e-7, 1e-9):
+            for spec in ('distinct', 'graded'):
+                out.append(dict(m=m, n=m, spec=spec, herm=False, mag=1.0, seed=seed, nearsym=eps))
     return out
 
 
@@ -397,7 +416,7 @@ def strata(tier, seed):
     ms = _matrices(tier, seed)
     yield Stratum('matrix-factorisations', ms, 'matrix', size=len(ms), chunk=4,
                   bounds={'m,n': '1..%d' % (4 if tier == 'quick' else 5), 'give_to': ['m', 'l', 'r'], 'rel': [0, 1]})
-    fm = [dict(shape=sh, ranks=rk, seed=seed) for sh, rk in (([4, 5], [1, 3, 1]), ([3, 4, 3], [1, 2, 3, 1]), ([2, 3, 2, 3], [1, 2, 3, 2, 1]), ([5, 1, 4], [1, 2, 2, 1]))]
+    fm = [dict(shape=sh, ranks=rk, seed=seed, nonneg=nn) for sh, rk in (([4, 5], [1, 3, 1]), ([3, 4, 3], [1, 2, 3, 1]), ([2, 3, 2, 3], [1, 2, 3, 2, 1]), ([5, 1, 4], [1, 2, 2, 1]), ([6, 6], [1, 2, 1])) for nn in (False, True)]
     yield Stratum('argument forms', fm, 'forms', size=len(fm), chunk=1, bounds={'forms': ['int64', 'int32', 'float32', 'fortran', 'strided', 'numpy scalars']})
     qm = _qm(tier, seed)
     yield Stratum('qtt-matrix-interleaving', qm, 'qttmatrix', size=len(qm), chunk=16,
